@@ -434,9 +434,21 @@ fn main() {
     }
     let mut rng = Rng(seed ^ 0x5EC7);
     // the fallback's reciprocal square root, in every configuration
-    for _ in 0..(if thorough { 100_000 } else { 10_000 }) {
-        let pos = (2f64.powf((rng.unit() - 0.5) * 40.0)) as f32;
-        emit1(&mut out, be, "fallback", "recip_sqrt", pos, guard(|| fallback::recip_sqrt(pos)), 1.0 / pos.sqrt());
+    for i in 0..(if thorough { 100_000 } else { 10_000 }) {
+        // every third probe anywhere in the normal range, every 16th in its lowest or highest binade
+        // (where exponent arithmetic on the bit pattern runs out of room), the ends themselves included
+        let pos = match i % 48 {
+            0 => f32::MIN_POSITIVE,
+            16 => f32::MAX,
+            32 => f32::from_bits(f32::MIN_POSITIVE.to_bits() * 2 - 1),
+            _ if i % 16 == 1 => f32::from_bits(0x0080_0000 + (rng.unit() * 8388608.0) as u32),
+            _ if i % 16 == 2 => f32::from_bits(0x7F00_0000 + (rng.unit() * 8388607.0) as u32),
+            _ if i % 3 == 0 => (2f64.powf(-126.0 + rng.unit() * 253.9)) as f32,
+            _ => (2f64.powf((rng.unit() - 0.5) * 40.0)) as f32,
+        };
+        if pos >= f32::MIN_POSITIVE && pos.is_finite() {
+            emit1(&mut out, be, "fallback", "recip_sqrt", pos, guard(|| fallback::recip_sqrt(pos)), 1.0 / pos.sqrt());
+        }
     }
     let mut rng = Rng(seed ^ 0xC045);
     // ---- consumers through the public API: must not depend on the backend
